@@ -179,6 +179,13 @@ Fixpoint retarget (pairs : list (nat * nat)) (rems find repl : list setting)
     end
   end.
 
+(* as repaired (F26): an object of the left operand that is about to stand in for an object of the right
+   operand must not also occur, as itself, elsewhere in the right operand *)
+Definition seam_fresh_check (pairs : list (setting * setting)) (inc : fmts) : bool :=
+  forallb (fun kp =>
+    forallb (fun y => forallb (fun '(mine, theirs) => negb (same_ref y mine) || same_ref y theirs) pairs)
+            (padd (snd kp) ++ prem (snd kp))) inc.
+
 Fixpoint iadd_loop (inc : fmts) (shift : nat) (seam_act : list setting) (t : fmts)
          (find repl : list setting) : res fmts :=
   match inc with
@@ -191,6 +198,7 @@ Fixpoint iadd_loop (inc : fmts) (shift : nat) (seam_act : list setting) (t : fmt
       if Nat.eqb key shift && negb (is_nil (padd ip))
          && list_eqb same_val (firstn n (prem mine)) (padd ip)
          && positions_sorted (firstn n (prem mine)) seam_act
+         && seam_fresh_check (combine (prem mine) (padd ip)) inc
       then
         let mine' := mkP (padd mine) (skipn n (prem mine) ++ prem ip) in
         let t' := if point_is_empty mine' then tdel key t else tput key mine' t in
